@@ -15,9 +15,9 @@ CLAIMED = {
          "seeded lockstep co-simulation of restructured graph vs original under sampled decision schedules"),
  "C04": ("cosim", "COSIM: by-name walk and region-wise walk must visit the same leaves on every simulated schedule at every stage prefix, plus the six state invariants of the statement evaluated on every hierarchy the simulated pipeline histories reach.", "4.3, 5 C04",
          "seeded lockstep co-simulation of two walkers + state invariants at every stage prefix"),
- "C06": ("cosim", "COSIM: on every simulated path every branching synthetic block must find its control variable assigned (since its last run, for latches) with a value in its table that maps to one of its successors; table/successor agreement checked at every stage prefix.", "4.3, 5 C06",
+ "C06": ("cosim", "COSIM: on every simulated path every branching synthetic block must find its control variable assigned (since its last run, for latches) with a value in its table that maps to one of its successors; table/successor agreement checked at every stage prefix; a by-name walk that has to be abandoned at a dangling name is followed up over the flattened hierarchy (flat re-walk).", "4.3, 5 C06",
          "seeded simulation of the control-variable machine along sampled decision schedules"),
- "C07": ("envsim", "ENVSIM: the regenerated function runs against a seeded environment that schedules every external response and injects exceptions / empty and short iterables; its interaction history and outcome must equal those of the original function under CPython (reference model); pipeline failures other than NotImplementedError are violations.", "4.4, 5 C07",
+ "C07": ("envsim", "ENVSIM: the regenerated function runs against a seeded environment that schedules every external response and injects exceptions / empty and short iterables; its interaction history and outcome must equal those of the original function under CPython (reference model); pipeline failures other than NotImplementedError are violations. Mismatches are attributed to a known finding only when the observed behaviour equals that of an executable model of the known desugaring defects (sim/defectmodel.py).", "4.4, 5 C07",
          "deterministic simulation of generated code against a fault-injecting environment, refinement vs CPython"),
  "C08": ("envsim", "ENVSIM: the block-by-block interpreter over the CFG built from source runs against the same fault-injecting environment and must produce the history and outcome of the original function. The last sentence of the statement (static census of statements/pruning) is not decided.", "4.4, 5 C08",
          "deterministic simulation of the CFG interpreter against a fault-injecting environment, refinement vs CPython"),
